@@ -39,6 +39,8 @@ func (tr *FnTrans) callWith(c *ssa.CallCommon, site ssa.Instruction, pos token.P
 		tr.atCall(c.Method.Name())
 	} else if callee := c.StaticCallee(); callee != nil {
 		tr.atCall(callee.Name())
+	} else if prm, ok := c.Value.(*ssa.Parameter); ok {
+		tr.atCall(prm.Name()) // call of a function-typed parameter
 	}
 	if b, ok := c.Value.(*ssa.Builtin); ok && !c.IsInvoke() {
 		return tr.builtin(b, c, args, pos)
@@ -300,7 +302,11 @@ func (tr *FnTrans) applyContractEnv(fc *FuncContract, name string, sig *types.Si
 					}
 				}
 				if own {
-					cbs = append(cbs, cbInfo{&FuncContract{ModHeap: true}, nil, "(callback parameter " + prm.Name() + ")"})
+					ft := tr.w.functypeContract(prm.Type())
+					if ft == nil {
+						ft = &FuncContract{ModHeap: true}
+					}
+					cbs = append(cbs, cbInfo{&FuncContract{ModHeap: ft.ModHeap, ModAll: ft.ModAll, ModExcept: ft.ModExcept, Modifies: ft.Modifies}, nil, "(callback parameter " + prm.Name() + ")"})
 					continue
 				}
 			}
@@ -340,6 +346,11 @@ func (tr *FnTrans) applyContractEnv(fc *FuncContract, name string, sig *types.Si
 		for _, m := range fc.Modifies {
 			targets = append(targets, tr.modTargets(ec, m)...)
 		}
+		for _, m := range fc.ModExcept {
+			for _, t := range tr.modTargets(ec, m) {
+				ghosts[t.comp] = vc.hget(tr.cur, t.comp) // excepted components keep their version
+			}
+		}
 		tr.havocAll()
 		for c, v := range ghosts {
 			tr.cur.m[c] = v
@@ -371,10 +382,25 @@ func (tr *FnTrans) applyContractEnv(fc *FuncContract, name string, sig *types.Si
 					ghosts[c] = vc.hget(tr.cur, c)
 				}
 			}
+			xec := &evalCtx{vc: vc, env: cb.kenv, heap: pre, old: pre, pkg: tr.pkg, entryAlloc: allocBefore}
+			for _, m := range cb.kfc.ModExcept {
+				for _, t := range tr.modTargets(xec, m) {
+					ghosts[t.comp] = vc.hget(tr.cur, t.comp)
+				}
+			}
+			var gmods []modTarget
+			for _, m := range cb.kfc.Modifies {
+				for _, t := range tr.modTargets(xec, m) {
+					if strings.HasPrefix(t.comp, "G$") {
+						gmods = append(gmods, t)
+					}
+				}
+			}
 			tr.havocAll()
 			for c, v := range ghosts {
 				tr.cur.m[c] = v
 			}
+			tr.applyMods(gmods)
 		} else {
 			kec := &evalCtx{vc: vc, env: cb.kenv, heap: pre, old: pre, pkg: tr.pkg, entryAlloc: allocBefore}
 			var kt []modTarget
@@ -417,6 +443,17 @@ func (tr *FnTrans) applyContractEnv(fc *FuncContract, name string, sig *types.Si
 			}
 		}
 	}
+	// ghost results of the callee: fresh values, constrained by its ensures
+	for _, gr := range fc.GhostResults {
+		srt := ghostSort(gr.Type)
+		g := vc.fresh("gres$"+gr.Name, srt)
+		gv := Val{K: sortKind(srt), T: g, Sort: srt}
+		env2[gr.Name] = gv
+		if tr.pendingBind != "" {
+			tr.binds[tr.pendingBind+"_"+gr.Name] = gv
+		}
+	}
+	tr.pendingBind = ""
 	post := &evalCtx{vc: vc, env: env2, heap: tr.cur, old: pre, pkg: cpkg, entryAlloc: allocBefore}
 	for _, c := range fc.Ensures {
 		tr.fact(post.evalBool(c.E))
